@@ -15,7 +15,8 @@
 (***************************************************************************)
 EXTENDS Integers, Sequences, FiniteSets, TLC, Json
 
-CONSTANTS MaxPos, KeyPos, Vals, MaxSteps, MaxIters, GenHist
+CONSTANTS MaxPos, KeyPos, Vals, MaxSteps, MaxIters, GenHist,
+          WholeIters   \* generator bias: iterators only over the whole key space, unlimited (sequences then get to compare-and-delete more often)
 
 Absent == "<absent>"
 
@@ -72,6 +73,7 @@ Del == \E k \in KeyPos :
     /\ kv' = [kv EXCEPT ![k] = Absent] /\ H([e |-> "SDel", k |-> k, res |-> "ok"]) /\ UNCHANGED <<iters, pb>>
 IterOpen == \E s \in 0..(MaxPos + 1), e \in 0..(MaxPos + 1), lim \in {0, 1, 2} :
     /\ Len(iters) < MaxIters
+    /\ (WholeIters => (lim = 0 /\ {s, e} = {0, MaxPos + 1}))
     /\ iters' = Append(iters, [items |-> IterSeq(kv, s, e), pos |-> 0, limit |-> lim])
     /\ H([e |-> "SIterOpen", id |-> Len(iters) + 1, s |-> s, en |-> e, limit |-> lim]) /\ UNCHANGED <<kv, pb>>
 \* advance one element (only where one exists and the limit allows asking for it)
